@@ -5,6 +5,7 @@ package c08
 import (
 	"fmt"
 	"math"
+	"math/bits"
 	"testing"
 
 	"github.com/openacid/low/bitword"
@@ -52,8 +53,22 @@ var scratch vk.Scratch
 
 func TestMain(m *testing.M) { vk.Main(m, "C08") }
 
+// Spec describes the content of a sized case compactly: the arguments are a pure function of it (expand),
+// so that a case of 2^18 words or 10^4 list elements is a few numbers in the case file.
+type Spec struct {
+	Len   int    `json:"len"`            // str: bytes of s; tostr: words; firstdiff: bytes of a; plural/tostrs: elements of the list
+	Seed  vk.U64 `json:"seed"`           // content stream
+	Style int    `json:"style"`          // content style (fill)
+	LenB  int    `json:"lenb,omitempty"` // firstdiff: bytes of b (b[i] = a[i] below min(len, lenb), own content behind)
+	Rel   int    `json:"rel,omitempty"`  // firstdiff: 0 nothing more (equal / one a prefix of the other), 1 bit Pos of b inverted, 3 b unrelated from byte Pos/8 on
+	Pos   int    `json:"pos,omitempty"`  // firstdiff: bit position (byte*8 + bit, most significant bit first)
+	ELen  int    `json:"elen,omitempty"` // lists: ordinary elements have 0..ELen bytes / words
+	Mix   int    `json:"mix,omitempty"`  // lists: which elements are long: 0 none, 1 all, 2 index%4 == 3, 3 about one in eight, 4 the last, 5 the first
+	Long  int    `json:"long,omitempty"` // lists: long elements have Long-3..Long bytes / words
+}
+
 type Case struct {
-	Op    string   `json:"op"` // str | tostr | firstdiff | plural | maxstr
+	Op    string   `json:"op"` // str | tostr | firstdiff | plural | tostrs | maxstr | maxtwin
 	N     int      `json:"n"`  // width 1,2,4,8
 	S     vk.Hex   `json:"s,omitempty"`
 	Words vk.Hex   `json:"words,omitempty"` // in-range words for ToStr
@@ -62,6 +77,8 @@ type Case struct {
 	From  int      `json:"from,omitempty"`
 	End   int      `json:"end,omitempty"`
 	List  []vk.Hex `json:"list,omitempty"`
+	Gen   *Spec    `json:"gen,omitempty"`  // sized case: S / Words / A,B / List are expand()ed from it
+	Flip  int64    `json:"flip,omitempty"` // maxtwin: the inverted bit, counted from the end of the string (1 = the last bit)
 	Class string   `json:"class,omitempty"`
 }
 
@@ -69,13 +86,206 @@ var widths = []int{1, 2, 4, 8}
 
 var checker = &vk.Checker[Case]{
 	ID: "C08",
-	Rule: "strings over all 256 byte values (length 0..40, thorough 0..2000) x width in {1,2,4,8}: FromStr length and every word vs bit-level extraction, Get at every index, ToStr(FromStr(s)) == s; ToStr on in-range word slices of any length (partial last byte) vs MSB-first packing; " +
-		"FirstDiff(a,b,from,end) on pairs {equal, common prefix + divergence inside a byte, one a prefix of the other, unrelated} x from in [0,max words+2] x end in {-1} u [0,max words+3] vs the smallest differing index below lim = min(end or words(a), words(a), words(b)); FromStrs/ToStrs element-wise, ToStrs also on lists of word slices with incomplete last bytes. " +
-		"Grid: all 1-byte strings x widths x indexes; all pairs of 1-byte strings x widths x all windows. Non-trivial: str/tostr with length >= 2 and a byte >= 0x80; firstdiff with a non-empty common word prefix, a later difference and a window that cuts or contains it. Distinct by hash of the case.",
-	Check:    check,
-	Classify: classify,
-	Hashed:   func(c Case) bool { return !(c.Op == "firstdiff" && len(c.A) == 1 && len(c.B) == 1) },
+	Rule: "strings over all 256 byte values x width in {1,2,4,8}: FromStr length and every word vs bit-level extraction, Get at every index, ToStr(FromStr(s)) == s; ToStr on in-range word slices of any length (partial last byte) vs MSB-first packing; " +
+		"FirstDiff(a,b,from,end) on pairs {equal, common prefix + divergence inside a byte, one a prefix of the other, unrelated} x from in [0,max words+2] x end in {-1} u [0,max words+3] (also the largest ints) vs the smallest differing index below lim = min(end or words(a), words(a), words(b)); FromStrs/ToStrs element-wise against the caller's (pristine) list, ToStrs also on lists of word slices with incomplete last bytes. " +
+		"Sizes: drawn byte by byte up to 40 bytes (one in eight up to 600; thorough 2000), word slices up to 80 (one in four up to 2000), pairs up to 12 bytes (one in four up to 200), lists up to 6 elements (one in four up to 200, elements up to 12 bytes, one in eight up to 300); besides that SIZED cases whose content is a function of (length, seed, style): the number of words / bytes / list elements is log-uniform " +
+		"(every octave equally likely, a quarter of them at 2^k-1, 2^k, 2^k+1) up to 2^18 words for FromStr/ToStr (thorough 2^22; the sweep 2^17), 2^15 bytes per FirstDiff argument (thorough 2^19, difference steered to anywhere incl. the last word), 2^14 list elements (thorough 2^17; long elements of 13..1000 bytes for none / all / every 4th / some / the last / the first element). " +
+		"Grid: all 1-byte strings x widths x indexes; all pairs of 1-byte strings x widths x all windows; a sweep over sizes 2^k-1, 2^k, 2^k+1 and two more sizes per octave for FromStr/ToStr/FirstDiff (difference in the last word) and for the lists (each list size under every GOMAXPROCS setting in the process that varies it). Last: Get / FirstDiff on a string of 2^28 bytes, also against a twin with one inverted bit. " +
+		"Arguments reach the library as private copies (empty slices as nil half of the time, strings and byte slices at odd addresses inside larger buffers half of the time); oracles read the pristine case. " +
+		"Non-trivial: str/tostr with length >= 2 and a byte >= 0x80 (tostr: a partial last byte or width 8); firstdiff with a non-empty common word prefix, a later difference and a window that cuts or contains it; lists of >= 2 elements (tostrs: with an incomplete element). Distinct by hash of the case.",
+	Check:    func(c Case) *vk.Failure { return check(c.expand()) },
+	Classify: func(c Case) (bool, []string) { return classify(c.expand()) },
+	Hashed:   func(c Case) bool { return !(c.Op == "firstdiff" && len(c.A) == 1 && len(c.B) == 1 && c.Gen == nil) },
 }
+
+// ---------------------------------------------------------------- sized content
+
+const maxSpecLen = 1 << 24
+
+// fill returns n bytes that are a pure function of (n, seed, style).
+//
+//	0 random bytes   1 alphabet {00,ff,a,b,80,01}   2 one byte value   3 all ff, the last byte different
+//	4 all 00, the last byte non-zero   5 a period of 1..17 random bytes   6 random bytes with the high bit set
+func fill(n int, seed uint64, style int) []byte {
+	if n <= 0 {
+		return []byte{}
+	}
+	b := make([]byte, n)
+	x := seed
+	next := func() uint64 { x += 0x632be59bd9b4e019; return vk.Mix(x) }
+	switch style {
+	case 1:
+		alpha := [8]byte{0x00, 0xff, 'a', 'b', 0x80, 0x01, 0xff, 0x00}
+		for i := 0; i < n; i += 16 {
+			r := next()
+			for j := i; j < i+16 && j < n; j++ {
+				b[j] = alpha[r&7]
+				r >>= 4
+			}
+		}
+	case 2:
+		c := byte(next() >> 13)
+		for i := range b {
+			b[i] = c
+		}
+	case 3:
+		for i := range b {
+			b[i] = 0xff
+		}
+		b[n-1] = byte(next()>>9) &^ 0x10
+	case 4:
+		b[n-1] = byte(next()>>9) | 1
+	case 5:
+		p := int(next()%17) + 1
+		for i := 0; i < p && i < n; i++ {
+			b[i] = byte(next() >> 20)
+		}
+		for i := p; i < n; i++ {
+			b[i] = b[i-p]
+		}
+	default:
+		for i := 0; i < n; i += 8 {
+			r := next()
+			for j := i; j < i+8 && j < n; j++ {
+				b[j] = byte(r)
+				r >>= 8
+			}
+		}
+		if style == 6 {
+			for i := range b {
+				b[i] |= 0x80
+			}
+		}
+	}
+	return b
+}
+
+const nStyles = 7
+
+func maskWords(b []byte, n int) []byte {
+	m := byte(1<<uint(n) - 1)
+	for i := range b {
+		b[i] &= m
+	}
+	return b
+}
+
+func expandList(g *Spec, n int, words bool) []vk.Hex {
+	out := make([]vk.Hex, g.Len)
+	for i := range out {
+		h := vk.Mix(uint64(g.Seed) + uint64(i)*0x9e3779b97f4a7c15)
+		l := 0
+		if g.ELen > 0 {
+			l = int(h % uint64(g.ELen+1))
+		}
+		if h>>40&7 == 0 {
+			l = 0
+		}
+		long := false
+		switch g.Mix {
+		case 1:
+			long = true
+		case 2:
+			long = i%4 == 3
+		case 3:
+			long = h>>44&7 == 0
+		case 4:
+			long = i == g.Len-1
+		case 5:
+			long = i == 0
+		}
+		if long {
+			l = max(g.Long-int(h>>48&3), 0)
+		}
+		e := fill(l, h, g.Style)
+		if words {
+			maskWords(e, n)
+		}
+		out[i] = e
+	}
+	return out
+}
+
+// expand materialises the arguments of a sized case (a pure function of the case).
+func (c Case) expand() Case {
+	g := c.Gen
+	if g == nil {
+		return c
+	}
+	if g.Len < 0 || g.Len > maxSpecLen || g.LenB < 0 || g.LenB > maxSpecLen || g.Long < 0 || g.Long > 1<<16 || g.ELen < 0 || g.ELen > 1<<12 || c.N < 1 || c.N > 8 {
+		c.Gen = nil
+		return c
+	}
+	seed := uint64(g.Seed)
+	switch c.Op {
+	case "str":
+		c.S = fill(g.Len, seed, g.Style)
+	case "tostr":
+		c.Words = maskWords(fill(g.Len, seed, g.Style), c.N)
+	case "firstdiff":
+		a := fill(g.Len, seed, g.Style)
+		b := make([]byte, g.LenB)
+		copy(b, a)
+		if g.LenB > g.Len {
+			copy(b[g.Len:], fill(g.LenB-g.Len, seed^0xb0b, 0))
+		}
+		switch g.Rel {
+		case 1:
+			if g.Pos >= 0 && g.Pos/8 < min(len(a), len(b)) {
+				b[g.Pos/8] ^= 0x80 >> uint(g.Pos%8)
+			}
+		case 3:
+			if k := g.Pos / 8; g.Pos >= 0 && k < len(b) {
+				copy(b[k:], fill(len(b)-k, seed^0xdeadbeef, g.Style))
+			}
+		}
+		c.A, c.B = a, b
+	case "plural":
+		c.List = expandList(g, c.N, false)
+	case "tostrs":
+		c.List = expandList(g, c.N, true)
+	}
+	return c
+}
+
+// sum is a cheap checksum of the case; it picks the shape in which the arguments are handed over.
+func (c Case) sum() uint64 {
+	h := uint64(c.N)*0x9e37 + uint64(len(c.S)) + uint64(len(c.Words))<<8 + uint64(len(c.A))<<16 + uint64(len(c.B))<<24 + uint64(len(c.List))<<32 + uint64(c.From)*31 + uint64(c.End)*131
+	if c.Gen != nil {
+		return vk.Mix(h + uint64(c.Gen.Seed))
+	}
+	for _, p := range [][]byte{c.S, c.Words, c.A, c.B} {
+		h = h*1099511628211 ^ vk.Hash64(p)
+	}
+	for _, e := range c.List {
+		h = h*1099511628211 ^ vk.Hash64(e)
+	}
+	return vk.Mix(h)
+}
+
+// hx prints a byte string, shortened in the middle when it is long.
+func hx[T ~string | ~[]byte](s T) string {
+	if len(s) <= 40 {
+		return fmt.Sprintf("%x", string(s))
+	}
+	return fmt.Sprintf("%x..(%d bytes)..%x", string(s[:16]), len(s), string(s[len(s)-12:]))
+}
+
+func hxs(l []vk.Hex) string {
+	if len(l) <= 8 {
+		out := "["
+		for i, e := range l {
+			if i > 0 {
+				out += " "
+			}
+			out += hx(e)
+		}
+		return out + "]"
+	}
+	return fmt.Sprintf("[%s %s ..(%d elements).. %s]", hx(l[0]), hx(l[1]), len(l), hx(l[len(l)-1]))
+}
+
+// ---------------------------------------------------------------- oracles
 
 // word i of s for width n: its n bits, most significant first.
 func wordOf(s string, n, i int) byte {
@@ -102,6 +312,18 @@ func wantFirstDiff(a, b string, n, from, end int) int {
 	return lim
 }
 
+// diffWord = wantFirstDiff(a, b, n, 0, -1), found byte-wise. Only generators, the classifier and the sweep use
+// it (to place windows, never to judge the library); TestGrid cross-checks it against wantFirstDiff.
+func diffWord[T ~string | ~[]byte](a, b T, n int) int {
+	m := min(len(a), len(b))
+	for i := 0; i < m; i++ {
+		if x := a[i] ^ b[i]; x != 0 {
+			return (8*i + bits.LeadingZeros8(x)) / n
+		}
+	}
+	return 8 * m / n
+}
+
 func packWords(ws []byte, n int) string {
 	per := 8 / n
 	out := make([]byte, (len(ws)+per-1)/per)
@@ -111,40 +333,54 @@ func packWords(ws []byte, n int) string {
 	return string(out)
 }
 
-func checkStr(bw bitword.Interface, n int, s string) *vk.Failure {
+func checkStr(bw bitword.Interface, n int, s string, sum uint64) *vk.Failure {
+	arg := vk.OddString(s, sum) // the library's copy (at an odd address half of the time); the oracle reads s
 	var ws []byte
-	if f := vk.Try(fmt.Sprintf("BitWord[%d].FromStr(%x)", n, s), func() { ws = bw.FromStr(s) }); f != nil {
+	if f := vk.TryF(func() string { return fmt.Sprintf("BitWord[%d].FromStr(%s)", n, hx(s)) }, func() { ws = bw.FromStr(arg) }); f != nil {
 		return f
 	}
 	if len(ws) != nwords(s, n) {
-		return vk.Failf("fromstr-len", "BitWord[%d].FromStr(%x) has %d words, want %d", n, s, len(ws), nwords(s, n))
+		return vk.Failf("fromstr-len", "BitWord[%d].FromStr(%s) has %d words, want %d", n, hx(s), len(ws), nwords(s, n))
 	}
+	want := make([]byte, len(ws))
 	for i := range ws {
-		want := wordOf(s, n, i)
-		if ws[i] != want {
-			return vk.Failf("fromstr-word", "BitWord[%d].FromStr(%x)[%d] = %d, want %d", n, s, i, ws[i], want)
+		want[i] = wordOf(s, n, i)
+		if ws[i] != want[i] {
+			return vk.Failf("fromstr-word", "BitWord[%d].FromStr(%s)[%d] = %d, want %d", n, hx(s), i, ws[i], want[i])
 		}
-		var g byte
-		if f := vk.Try(fmt.Sprintf("BitWord[%d].Get(%x,%d)", n, s, i), func() { g = bw.Get(s, i) }); f != nil {
-			return f
+	}
+	cur, bad := 0, -1
+	var g byte
+	if f := vk.TryF(func() string { return fmt.Sprintf("BitWord[%d].Get(%s,%d)", n, hx(s), cur) }, func() {
+		for i := range want {
+			cur = i
+			if g = bw.Get(arg, i); g != want[i] {
+				bad = i
+				return
+			}
 		}
-		if g != want {
-			return vk.Failf("get", "BitWord[%d].Get(%x, %d) = %d, want %d", n, s, i, g, want)
-		}
+	}); f != nil {
+		return f
+	}
+	if bad >= 0 {
+		return vk.Failf("get", "BitWord[%d].Get(%s, %d) = %d, want %d", n, hx(s), bad, g, want[bad])
 	}
 	var back string
 	if f := vk.Try("ToStr(FromStr(s))", func() { back = bw.ToStr(ws) }); f != nil {
 		return f
 	}
 	if back != s {
-		return vk.Failf("roundtrip", "BitWord[%d].ToStr(FromStr(%x)) = %x", n, s, back)
+		return vk.Failf("roundtrip", "BitWord[%d].ToStr(FromStr(%s)) = %s", n, hx(s), hx(back))
+	}
+	if arg != s {
+		return vk.Failf("str-mutates", "BitWord[%d]: the string argument %s reads %s after FromStr/Get", n, hx(s), hx(arg))
 	}
 	return nil
 }
 
 // checkMaxStr: Get and FirstDiff at the top of a string of 2^28 bytes (2^31 bits: word indexes of width 1 leave int32).
-// a is the whole string, b the same memory without its last `cut` bytes, so they never differ below lim;
-// a private copy of a's tail with one bit flipped provides a difference.
+// a is the whole string, b the same memory without its last `cut` bytes, so they never differ below lim
+// (checkMaxTwin provides a difference).
 func checkMaxStr(bw bitword.Interface, n, back, cut int) *vk.Failure {
 	if back < 0 || back > 4096 || cut < 0 || cut > 64 {
 		return nil
@@ -192,33 +428,94 @@ func checkMaxStr(bw bitword.Interface, n, back, cut int) *vk.Failure {
 	return nil
 }
 
+// checkMaxTwin: FirstDiff of the 2^28-byte string against a private twin whose bit `flip` (counted from the end, 1 = the
+// last bit) is inverted: the only difference sits at word (8*2^28 - flip)/n, beyond int32 for width 1. from starts
+// `back` words before it; both argument orders.
+func checkMaxTwin(bw bitword.Interface, n, back int, flip int64) *vk.Failure {
+	total := int64(8 * gen.MaxStrLen)
+	if back < 0 || back > 1<<16 || flip < 1 || flip > 1<<16 {
+		return nil
+	}
+	a, b := gen.MaxString(0), gen.MaxStringTwin(total-flip)
+	d := int((total - flip) / int64(n)) // the only differing word
+	nw := int(total / int64(n))
+	for _, from := range []int{d - back, d, d + 1} {
+		if from < 0 {
+			continue
+		}
+		for _, end := range []int{-1, d, d + 1, nw, nw + 3, math.MaxInt} {
+			lim := end
+			if end == -1 {
+				lim = nw
+			}
+			lim = min(lim, nw)
+			want := lim
+			if from <= d && d < lim {
+				want = d
+			}
+			for swap := 0; swap < 2; swap++ {
+				x, y := a, b
+				if swap == 1 {
+					x, y = b, a
+				}
+				var g int
+				if f := vk.Try(fmt.Sprintf("BitWord[%d].FirstDiff(2^28 bytes, twin with bit %d from the end inverted (swapped=%d), %d, %d)", n, flip, swap, from, end), func() { g = bw.FirstDiff(x, y, from, end) }); f != nil {
+					return f
+				}
+				if g != want {
+					return vk.Failf("firstdiff", "BitWord[%d].FirstDiff(2^28 bytes, its twin with bit %d from the end inverted (swapped=%d), from=%d, end=%d) = %d, want %d (the only differing word is %d)", n, flip, swap, from, end, g, want, d)
+				}
+			}
+		}
+	}
+	if j, bad := gen.MaxStringDamage(); bad {
+		return vk.Failf("mutates", "byte %d of the 2^28-byte string argument was modified", j)
+	}
+	if j, bad := gen.MaxTwinDamage(); bad {
+		return vk.Failf("mutates", "byte %d of the 2^28-byte twin argument was modified", j)
+	}
+	return nil
+}
+
+func emptyAsNil(sum uint64, i int) bool { return vk.Mix(sum^0x5e1f+uint64(i)*0x9e37)&1 == 0 }
+
+// check judges an expanded case.
 func check(c Case) *vk.Failure {
 	bw, ok := bitword.BitWord[c.N]
 	if !ok || bw == nil {
 		return vk.Failf("missing-width", "bitword.BitWord[%d] is missing", c.N)
 	}
+	sum := c.sum()
 	switch c.Op {
 	case "maxstr":
 		return checkMaxStr(bw, c.N, c.From, c.End)
+	case "maxtwin":
+		return checkMaxTwin(bw, c.N, c.From, c.Flip)
 	case "cold-start":
 		if coldStartResult != "" {
 			return vk.Failf("cold-start", "%s", coldStartResult)
 		}
 		return nil
 	case "str":
-		return checkStr(bw, c.N, string(c.S))
+		return checkStr(bw, c.N, string(c.S), sum)
 	case "tostr":
-		ws := append([]byte(nil), c.Words...)
-		reused := scratch.Reuse(vk.Hash64(c.Words) + uint64(c.N))
-		if reused {
+		var ws []byte
+		tail := func() bool { return true }
+		reused := scratch.Reuse(vk.Hash64(c.Words[:min(len(c.Words), 512)]) + uint64(c.N) + uint64(len(c.Words)))
+		switch {
+		case reused:
 			ws = scratch.Bytes(c.Words) // a reused buffer with guarded spare capacity (e.g. a prefix of a longer word slice)
+		case len(c.Words) == 0 && emptyAsNil(sum, 0):
+			ws = nil
+		default:
+			ws, tail = vk.OddBytes(c.Words, sum) // carved out of a larger buffer at an odd address, or a fresh exact copy
 		}
 		var got string
-		if f := vk.Try(fmt.Sprintf("BitWord[%d].ToStr(%v)", c.N, c.Words), func() { got = bw.ToStr(ws) }); f != nil {
+		if f := vk.TryF(func() string { return fmt.Sprintf("BitWord[%d].ToStr(%s)", c.N, hx(c.Words)) }, func() { got = bw.ToStr(ws) }); f != nil {
 			return f
 		}
 		if want := packWords(c.Words, c.N); got != want {
-			return vk.Failf("tostr", "BitWord[%d].ToStr(%v) = %x, want %x", c.N, []byte(c.Words), got, want)
+			return vk.Failf("tostr", "BitWord[%d].ToStr(%s) (%d words) = %s, want %s", c.N, hx(c.Words), len(c.Words), hx(got), hx(want))
 		}
 		if string(ws) != string(c.Words) {
 			return vk.Failf("tostr-mutates", "ToStr modified its argument")
@@ -227,83 +524,134 @@ func check(c Case) *vk.Failure {
 			if msg := scratch.Check(); msg != "" {
 				return vk.Failf("argument-spare-capacity-written", "BitWord[%d].ToStr(%d words): %s", c.N, len(c.Words), msg)
 			}
+		} else if !tail() {
+			return vk.Failf("argument-spare-capacity-written", "BitWord[%d].ToStr(%d words): bytes around the argument (inside the buffer it was carved from) were written", c.N, len(c.Words))
 		}
 		return nil
 	case "firstdiff":
-		a, b := string(c.A), string(c.B)
+		a, b := string(c.A), string(c.B) // pristine; the library gets its own copies
+		xa, xb := vk.OddString(a, sum), vk.OddString(b, sum*31+7)
 		want := wantFirstDiff(a, b, c.N, c.From, c.End)
 		var got int
-		if f := vk.Try(fmt.Sprintf("BitWord[%d].FirstDiff(%x,%x,%d,%d)", c.N, a, b, c.From, c.End), func() { got = bw.FirstDiff(a, b, c.From, c.End) }); f != nil {
+		if f := vk.TryF(func() string {
+			return fmt.Sprintf("BitWord[%d].FirstDiff(%s,%s,%d,%d)", c.N, hx(a), hx(b), c.From, c.End)
+		}, func() { got = bw.FirstDiff(xa, xb, c.From, c.End) }); f != nil {
 			return f
 		}
 		if got != want {
-			return vk.Failf("firstdiff", "BitWord[%d].FirstDiff(%x, %x, from=%d, end=%d) = %d, want %d", c.N, a, b, c.From, c.End, got, want)
+			return vk.Failf("firstdiff", "BitWord[%d].FirstDiff(%s, %s, from=%d, end=%d) = %d, want %d", c.N, hx(a), hx(b), c.From, c.End, got, want)
+		}
+		if xa != a || xb != b {
+			return vk.Failf("firstdiff-mutates", "FirstDiff modified a string argument")
 		}
 		return nil
 	}
 	if c.Op == "tostrs" {
 		// ToStrs on arbitrary in-range word slices (also incomplete last bytes) == ToStr element-wise
 		in := make([][]byte, len(c.List))
+		tails := make([]func() bool, len(c.List))
 		for i, l := range c.List {
-			in[i] = append([]byte(nil), l...)
+			if len(l) == 0 && emptyAsNil(sum, i+1) {
+				continue // a nil element
+			}
+			in[i], tails[i] = vk.OddBytes(l, sum+uint64(i)*0x9e37)
+		}
+		if len(in) == 0 && emptyAsNil(sum, 0) {
+			in = nil
 		}
 		var got []string
-		if f := vk.Try(fmt.Sprintf("BitWord[%d].ToStrs(%v)", c.N, in), func() { got = bw.ToStrs(in) }); f != nil {
+		if f := vk.TryF(func() string { return fmt.Sprintf("BitWord[%d].ToStrs(%s)", c.N, hxs(c.List)) }, func() { got = bw.ToStrs(in) }); f != nil {
 			return f
 		}
-		if len(got) != len(in) {
-			return vk.Failf("tostrs-len", "ToStrs of %d word slices returned %d strings", len(in), len(got))
+		if len(got) != len(c.List) {
+			return vk.Failf("tostrs-len", "ToStrs of %d word slices returned %d strings", len(c.List), len(got))
 		}
-		for i := range in {
+		for i := range c.List {
 			if want := packWords(c.List[i], c.N); got[i] != want {
-				return vk.Failf("tostrs-element", "BitWord[%d].ToStrs(%v)[%d] = %x, want %x (element-wise ToStr)", c.N, in, i, got[i], want)
+				return vk.Failf("tostrs-element", "BitWord[%d].ToStrs(%s)[%d] = %s, want %s (element-wise ToStr of %s)", c.N, hxs(c.List), i, hx(got[i]), hx(want), hx(c.List[i]))
 			}
 			if string(in[i]) != string(c.List[i]) {
 				return vk.Failf("tostrs-mutates", "ToStrs modified word slice %d", i)
 			}
+			if tails[i] != nil && !tails[i]() {
+				return vk.Failf("argument-spare-capacity-written", "BitWord[%d].ToStrs: bytes around word slice %d (inside the buffer it was carved from) were written", c.N, i)
+			}
 		}
 		return nil
 	}
-	// plural forms are element-wise
-	strs := vk.Strings(c.List)
+	// plural forms are element-wise. The reference is the pristine list of the case, not the slice the library was given.
+	pristine := vk.Strings(c.List)
+	strs := vk.ShapeStrings(pristine, sum)
 	var wss [][]byte
-	var back []string
-	if f := vk.Try("FromStrs/ToStrs", func() {
-		wss = bw.FromStrs(strs)
-		back = bw.ToStrs(wss)
-	}); f != nil {
+	if f := vk.TryF(func() string { return fmt.Sprintf("BitWord[%d].FromStrs(%s)", c.N, hxs(c.List)) }, func() { wss = bw.FromStrs(strs) }); f != nil {
 		return f
 	}
-	if len(wss) != len(strs) || len(back) != len(strs) {
-		return vk.Failf("plural-len", "FromStrs/ToStrs of %d strings returned %d/%d elements", len(strs), len(wss), len(back))
+	if len(wss) != len(pristine) {
+		return vk.Failf("plural-len", "FromStrs of %d strings returned %d elements", len(pristine), len(wss))
 	}
-	for i, s := range strs {
-		one := bw.FromStr(s)
-		if string(one) != string(wss[i]) {
-			return vk.Failf("fromstrs", "FromStrs(...)[%d] = %v, FromStr gives %v", i, wss[i], one)
+	for i, s := range pristine {
+		if len(wss[i]) != nwords(s, c.N) {
+			return vk.Failf("fromstrs", "BitWord[%d].FromStrs(%s)[%d] has %d words, want %d (element-wise FromStr of %s)", c.N, hxs(c.List), i, len(wss[i]), nwords(s, c.N), hx(s))
 		}
 		for k := range wss[i] {
-			if wss[i][k] != wordOf(s, c.N, k) {
-				return vk.Failf("fromstrs", "FromStrs(...)[%d][%d] wrong", i, k)
+			if w := wordOf(s, c.N, k); wss[i][k] != w {
+				return vk.Failf("fromstrs", "BitWord[%d].FromStrs(%s)[%d][%d] = %d, want %d (element-wise FromStr of %s)", c.N, hxs(c.List), i, k, wss[i][k], w, hx(s))
 			}
 		}
+	}
+	if len(strs) != len(pristine) {
+		return vk.Failf("fromstrs-mutates", "FromStrs changed its argument list")
+	}
+	for i, s := range pristine {
+		if strs[i] != s {
+			return vk.Failf("fromstrs-mutates", "FromStrs changed element %d of its argument list: %s, was %s", i, hx(strs[i]), hx(s))
+		}
+	}
+	// FromStrs(list)[i] == FromStr(list[i]), the library against itself (a few elements of a long list)
+	step := max(len(pristine)/16, 1)
+	for i := 0; i < len(pristine); i += step {
+		var one []byte
+		if f := vk.Try("FromStr", func() { one = bw.FromStr(pristine[i]) }); f != nil {
+			return f
+		}
+		if string(one) != string(wss[i]) {
+			return vk.Failf("fromstrs", "FromStrs(...)[%d] = %s, FromStr gives %s", i, hx(wss[i]), hx(one))
+		}
+	}
+	// wss is now known to be right: ToStrs of it gives the strings back
+	var back []string
+	if f := vk.TryF(func() string { return fmt.Sprintf("BitWord[%d].ToStrs(FromStrs(%s))", c.N, hxs(c.List)) }, func() { back = bw.ToStrs(wss) }); f != nil {
+		return f
+	}
+	if len(back) != len(pristine) {
+		return vk.Failf("plural-len", "ToStrs of %d word slices returned %d elements", len(pristine), len(back))
+	}
+	for i, s := range pristine {
 		if back[i] != s {
-			return vk.Failf("tostrs", "ToStrs(FromStrs(...))[%d] = %x, want %x", i, back[i], s)
+			return vk.Failf("tostrs", "BitWord[%d].ToStrs(FromStrs(%s))[%d] = %s, want %s", c.N, hxs(c.List), i, hx(back[i]), hx(s))
 		}
 	}
 	return nil
 }
 
+func octave(op string, size int) string {
+	return fmt.Sprintf("%s-size:2^%d", op, bits.Len(uint(size))-1)
+}
+
+// classify works on an expanded case.
 func classify(c Case) (bool, []string) {
 	if c.Op == "cold-start" {
 		return false, []string{"cold-start-failure"}
 	}
-	if c.Op == "maxstr" {
-		return true, []string{"op:maxstr", "maximum-string(2^28 bytes)"}
+	if c.Op == "maxstr" || c.Op == "maxtwin" {
+		return true, []string{"op:" + c.Op, "maximum-string(2^28 bytes)"}
 	}
 	labels := []string{"op:" + c.Op, fmt.Sprintf("n:%d", c.N)}
 	if c.Class != "" {
 		labels = append(labels, "class:"+c.Class)
+	}
+	if c.Gen != nil {
+		labels = append(labels, "sized", fmt.Sprintf("style:%d", c.Gen.Style))
 	}
 	high := func(b []byte) bool {
 		for _, x := range b {
@@ -315,29 +663,38 @@ func classify(c Case) (bool, []string) {
 	}
 	switch c.Op {
 	case "str":
+		if nw := nwords(string(c.S), c.N); nw >= 64 {
+			labels = append(labels, octave("str-words", nw))
+		}
 		return len(c.S) >= 2 && high(c.S), labels
 	case "tostr":
 		per := 8 / c.N
 		if len(c.Words)%per != 0 {
 			labels = append(labels, "partial-last-byte")
 		}
+		if len(c.Words) >= 64 {
+			labels = append(labels, octave("tostr-words", len(c.Words)))
+		}
 		return len(c.Words) >= 2 && (len(c.Words)%per != 0 || c.N == 8), labels
 	case "tostrs":
 		per := 8 / c.N
-		incomplete := 0
+		incomplete, long := 0, 0
 		for _, l := range c.List {
 			if len(l)%per != 0 {
 				incomplete++
+			}
+			if len(l) > 14 {
+				long++
 			}
 		}
 		if incomplete > 0 {
 			labels = append(labels, "has-incomplete-element")
 		}
+		labels = append(labels, listLabels("tostrs", len(c.List), long)...)
 		return len(c.List) >= 2 && incomplete > 0, labels
 	case "firstdiff":
-		a, b := string(c.A), string(c.B)
-		full := wantFirstDiff(a, b, c.N, 0, -1)
-		minw := min(nwords(a, c.N), nwords(b, c.N))
+		full := diffWord(c.A, c.B, c.N)
+		minw := 8 * min(len(c.A), len(c.B)) / c.N
 		differs := full < minw
 		switch {
 		case c.End == -1:
@@ -347,9 +704,57 @@ func classify(c Case) (bool, []string) {
 		case c.From >= c.End:
 			labels = append(labels, "window:empty")
 		}
+		if differs && full >= 64 {
+			labels = append(labels, octave("firstdiff-difference-at-word", full))
+			if c.From <= full && (c.End == -1 || c.End > full) {
+				labels = append(labels, "firstdiff-window-contains-difference-at>=64")
+			}
+		}
 		return full >= 1 && differs && c.From <= full, labels
 	}
+	long := 0
+	for _, l := range c.List {
+		if len(l) > 12 {
+			long++
+		}
+	}
+	labels = append(labels, listLabels("plural", len(c.List), long)...)
 	return len(c.List) >= 2, labels
+}
+
+func listLabels(op string, k, long int) []string {
+	var out []string
+	if k >= 8 {
+		out = append(out, octave(op+"-elements", k))
+	}
+	switch {
+	case long == 0:
+	case long == k:
+		out = append(out, op+":all-elements-long")
+	default:
+		out = append(out, op+":some-elements-long")
+	}
+	return out
+}
+
+// ---------------------------------------------------------------- generators
+
+// logUniform draws a size in [1, 2^(maxLog+1)): the octave [2^k, 2^(k+1)) is uniform in k (no holes between the
+// small and the largest sizes); a quarter of the draws sit at 2^k-1, 2^k, 2^k+1.
+func logUniform(t *rapid.T, maxLog int, label string) int {
+	k := gen.Uniform(t, maxLog+1, label+".oct")
+	v := 1<<uint(k) + gen.Uniform(t, 1<<uint(k), label+".off")
+	if gen.Chance(t, 1, 4, label+".edge") {
+		v = max(1<<uint(k)+gen.Uniform(t, 3, label+".e")-1, 1)
+	}
+	return v
+}
+
+func genStyle(t *rapid.T) int {
+	if gen.Chance(t, 1, 2, "style.random") {
+		return 0
+	}
+	return gen.Uniform(t, nStyles, "style")
 }
 
 func genPair(t *rapid.T, maxLen int) ([]byte, []byte, string) {
@@ -362,6 +767,9 @@ func genPair(t *rapid.T, maxLen int) ([]byte, []byte, string) {
 			return a, gen.Bytes(t, 0, 3, "b"), "unrelated"
 		}
 		k := gen.Uniform(t, len(a), "k")
+		if gen.Chance(t, 1, 3, "late") { // in the last bytes
+			k = len(a) - 1 - gen.Uniform(t, min(len(a), 2), "klate")
+		}
 		b := append([]byte(nil), a[:k+1]...)
 		b[k] ^= 1 << uint(gen.Uniform(t, 8, "bit"))
 		b = append(b, gen.Bytes(t, 0, 4, "tail")...)
@@ -376,17 +784,109 @@ func genPair(t *rapid.T, maxLen int) ([]byte, []byte, string) {
 	return a, gen.Bytes(t, 0, maxLen, "b"), "unrelated"
 }
 
+// genSizedPair: a FirstDiff pair of any size up to 2^(maxLog+1) bytes as a Spec.
+func genSizedPair(t *rapid.T, maxLog int) (*Spec, string) {
+	la := logUniform(t, maxLog, "la")
+	g := &Spec{Len: la, LenB: la, Seed: vk.U64(gen.U64(t, "seed")), Style: genStyle(t)}
+	otherLen := func() int {
+		switch gen.Uniform(t, 4, "lenb") {
+		case 0:
+			return la
+		case 1:
+			return max(la-1-gen.Uniform(t, 9, "lb.minus"), 0)
+		case 2:
+			return la + 1 + gen.Uniform(t, 9, "lb.plus")
+		}
+		return gen.Uniform(t, 2*la+2, "lb.any")
+	}
+	bitPos := func(nbytes int) int { // a bit position inside nbytes (>= 1) bytes: near the end, log-uniform, or anywhere
+		switch gen.Uniform(t, 3, "pos") {
+		case 0:
+			return max(8*nbytes-1-gen.Uniform(t, 24, "pos.end"), 0)
+		case 1:
+			return min(logUniform(t, bits.Len(uint(8*nbytes))-1, "pos.log")-1, 8*nbytes-1)
+		}
+		return gen.Uniform(t, 8*nbytes, "pos.any")
+	}
+	switch gen.Uniform(t, 7, "rel") {
+	case 0:
+		return g, "equal"
+	case 1, 2, 3:
+		g.LenB = otherLen()
+		if m := min(g.Len, g.LenB); m > 0 {
+			g.Rel, g.Pos = 1, bitPos(m)
+			return g, "diverge-in-byte"
+		}
+		return g, "prefix"
+	case 4, 5:
+		g.LenB = otherLen()
+		if g.LenB == g.Len {
+			g.LenB = gen.Uniform(t, la, "lb.prefix")
+		}
+		return g, "prefix"
+	}
+	g.LenB = otherLen()
+	if m := min(g.Len, g.LenB); m > 0 {
+		g.Rel, g.Pos = 3, bitPos(m)&^7
+	}
+	return g, "unrelated"
+}
+
+// genSizedList: a list of up to 2^(maxLog+1) elements as a Spec; the total content stays within budget bytes.
+func genSizedList(t *rapid.T, maxLog, budget int) *Spec {
+	k := logUniform(t, maxLog, "k")
+	g := &Spec{Len: k, Seed: vk.U64(gen.U64(t, "seed")), Style: genStyle(t), ELen: 12}
+	switch gen.Uniform(t, 4, "elen") {
+	case 0:
+		g.ELen = gen.Uniform(t, 4, "elen.small")
+	case 1:
+		g.ELen = 14
+	}
+	if g.ELen*k > 2*budget {
+		g.ELen = max(2*budget/k, 1)
+	}
+	if gen.Chance(t, 2, 3, "mixed") { // only some elements are long
+		g.Mix = 1 + gen.Uniform(t, 5, "mix")
+		g.Long = min(12+logUniform(t, 9, "long"), 1000) // 13..1000
+		nLong := 1
+		switch g.Mix {
+		case 1:
+			nLong = k
+		case 2:
+			nLong = k/4 + 1
+		case 3:
+			nLong = k/8 + 1
+		}
+		g.Long = max(min(g.Long, budget/nLong), 13)
+	}
+	return g
+}
+
 func genCase(t *rapid.T) Case {
 	n := widths[gen.Uniform(t, 4, "n")]
+	per := 8 / n
 	maxLen := vk.Pick(40, 2000)
 	if gen.Chance(t, 1, 8, "long") {
 		maxLen = vk.Pick(600, 2000) // beyond any small-string threshold, also in the quick tier
 	}
 	switch gen.Uniform(t, 8, "op") {
 	case 0, 1:
+		if gen.Chance(t, 1, 6, "sized") { // any number of words up to 2^18 (thorough 2^22)
+			w := logUniform(t, vk.Pick(17, 21), "w")
+			l := (w + gen.Uniform(t, per, "round")) / per
+			return Case{Op: "str", N: n, Gen: &Spec{Len: l, Seed: vk.U64(gen.U64(t, "seed")), Style: genStyle(t)}}
+		}
 		return Case{Op: "str", N: n, S: gen.Bytes(t, 0, maxLen, "s")}
 	case 2:
-		l := gen.Len(t, vk.Pick(80, 400), "nw")
+		if gen.Chance(t, 1, 4, "sized") {
+			w := logUniform(t, vk.Pick(17, 21), "w")
+			return Case{Op: "tostr", N: n, Gen: &Spec{Len: w, Seed: vk.U64(gen.U64(t, "seed")), Style: genStyle(t)}}
+		}
+		maxW := vk.Pick(80, 400)
+		if gen.Chance(t, 1, 4, "longer") {
+			maxW = 2000
+		}
+		l := gen.Len(t, maxW, "nw")
 		ws := make([]byte, l)
 		for i := range ws {
 			ws[i] = byte(gen.U64(t, "w")) & byte(1<<uint(n)-1)
@@ -396,41 +896,75 @@ func genCase(t *rapid.T) Case {
 		}
 		return Case{Op: "tostr", N: n, Words: ws}
 	case 3:
-		k := gen.Len(t, 6, "k")
+		words := gen.Chance(t, 1, 2, "tostrs") // word slices of any length, also incomplete last bytes
+		op := "plural"
+		if words {
+			op = "tostrs"
+		}
+		if gen.Chance(t, 1, 3, "sized") { // any number of elements up to 2^14 (thorough 2^17), random remainders
+			return Case{Op: op, N: n, Gen: genSizedList(t, vk.Pick(13, 16), vk.Pick(1<<16, 1<<20))}
+		}
+		maxK := 6
+		if gen.Chance(t, 1, 4, "more") {
+			maxK = 200
+		}
+		k := gen.Len(t, maxK, "k")
 		var list []vk.Hex
-		if gen.Chance(t, 1, 2, "tostrs") { // word slices of any length, also incomplete last bytes
-			for i := 0; i < k; i++ {
-				ws := gen.Bytes(t, 0, 14, "ws")
-				for j := range ws {
-					ws[j] &= byte(1<<uint(n) - 1)
-				}
-				list = append(list, ws)
-			}
-			return Case{Op: "tostrs", N: n, List: list}
-		}
 		for i := 0; i < k; i++ {
-			list = append(list, gen.Bytes(t, 0, 12, "e"))
+			maxE := 12
+			if words {
+				maxE = 14
+			}
+			if gen.Chance(t, 1, 8, "longelem") { // only some elements are long
+				maxE = 300
+			}
+			e := gen.Bytes(t, 0, maxE, "e")
+			if words {
+				maskWords(e, n)
+			}
+			list = append(list, e)
 		}
-		return Case{Op: "plural", N: n, List: list}
+		return Case{Op: op, N: n, List: list}
 	}
-	a, b, rel := genPair(t, vk.Pick(12, 200))
-	mw := max(nwords(string(a), n), nwords(string(b), n))
+	var c Case
+	if gen.Chance(t, 1, 5, "sized") { // arguments of any size up to 2^15 bytes (thorough 2^19)
+		g, rel := genSizedPair(t, vk.Pick(14, 18))
+		c = Case{Op: "firstdiff", N: n, Gen: g, Class: rel}
+	} else {
+		pl := vk.Pick(12, 200)
+		if gen.Chance(t, 1, 4, "longer") {
+			pl = 200
+		}
+		a, b, rel := genPair(t, pl)
+		c = Case{Op: "firstdiff", N: n, A: a, B: b, Class: rel}
+	}
+	x := c.expand()
+	mw := 8 * max(len(x.A), len(x.B)) / n
 	from := gen.Uniform(t, mw+3, "from")
 	end := gen.Uniform(t, mw+5, "end") - 1
 	if gen.Chance(t, 1, 4, "endm1") {
 		end = -1
 	}
+	ext := []int{math.MaxInt, math.MaxInt - 1, math.MaxInt - 3, math.MaxInt - 7, math.MaxInt32, math.MaxInt32 + 1, 1 << 62}
 	if gen.Chance(t, 1, 12, "extreme") { // the largest values the argument types allow
-		ext := []int{math.MaxInt, math.MaxInt - 1, math.MaxInt - 3, math.MaxInt - 7, math.MaxInt32, math.MaxInt32 + 1, 1 << 62}
 		end = ext[gen.Uniform(t, len(ext), "extend")]
 		if gen.Chance(t, 1, 3, "extfrom") {
 			from = ext[gen.Uniform(t, len(ext), "extfrom2")]
 		}
+	} else if gen.Chance(t, 1, 24, "extfromalone") { // a huge from with an ordinary end (or -1)
+		from = ext[gen.Uniform(t, len(ext), "extfrom3")]
 	}
-	// steer some windows to the interesting place
-	if gen.Chance(t, 1, 3, "steer") {
-		d := wantFirstDiff(string(a), string(b), n, 0, -1)
+	// steer some windows to the interesting place (more often when the arguments are large)
+	steerDen := 3
+	if c.Gen != nil {
+		steerDen = 2
+	}
+	if gen.Chance(t, 1, steerDen, "steer") && from < math.MaxInt32 {
+		d := diffWord(x.A, x.B, n)
 		from = max(d-gen.Uniform(t, 3, "df"), 0)
+		if gen.Chance(t, 1, 4, "from0") {
+			from = 0
+		}
 		if end != -1 {
 			end = d + gen.Uniform(t, 4, "de") - 1
 			if end < 0 {
@@ -438,7 +972,8 @@ func genCase(t *rapid.T) Case {
 			}
 		}
 	}
-	return Case{Op: "firstdiff", N: n, A: a, B: b, From: from, End: end, Class: rel}
+	c.From, c.End = from, end
+	return c
 }
 
 func TestRegress(t *testing.T) { checker.Regress(t) }
@@ -446,6 +981,22 @@ func TestRegress(t *testing.T) { checker.Regress(t) }
 func TestProp(t *testing.T) { checker.Prop(t, genCase) }
 
 func FuzzProp(f *testing.F) { checker.Fuzz(f, genCase) }
+
+// sweepSizes: for every octave k in [lo, hi]: 2^k-1, 2^k, 2^k+1 and two more sizes inside (2^k+1, 2^(k+1)-1) that are
+// a function of (k, salt).
+func sweepSizes(lo, hi int, salt uint64) []int {
+	var out []int
+	for k := lo; k <= hi; k++ {
+		p := 1 << uint(k)
+		out = append(out, p-1, p, p+1)
+		if p >= 8 {
+			for j := uint64(0); j < 2; j++ {
+				out = append(out, p+2+int(vk.Mix(salt+uint64(k)*7+j)%uint64(p-3)))
+			}
+		}
+	}
+	return out
+}
 
 func TestGrid(t *testing.T) {
 	vk.SetPhase("grid")
@@ -486,8 +1037,11 @@ func TestGrid(t *testing.T) {
 	}
 	for _, n := range widths { // the largest values the argument types allow, on a few pairs
 		for _, pair := range [][2]string{{"aa", "ab"}, {"", "x"}, {"\xff\x00", "\xff\x00"}, {"abc", "ab"}} {
-			for _, end := range []int{math.MaxInt, math.MaxInt - 1, math.MaxInt - 3, math.MaxInt - 7, math.MaxInt32, 1 << 40} {
-				for _, from := range []int{0, 1, 9, math.MaxInt, math.MaxInt - 8} {
+			for _, end := range []int{math.MaxInt, math.MaxInt - 1, math.MaxInt - 3, math.MaxInt - 7, math.MaxInt32, 1 << 40, -1, 3} {
+				for _, from := range []int{0, 1, 9, math.MaxInt, math.MaxInt - 8, math.MaxInt32 + 1} {
+					if end <= 3 && from <= 9 {
+						continue // ordinary windows: the exhaustive part and TestProp
+					}
 					checker.Run(t, Case{Op: "firstdiff", N: n, A: vk.Hex(pair[0]), B: vk.Hex(pair[1]), From: from, End: end, Class: "grid-extreme"})
 				}
 			}
@@ -495,6 +1049,86 @@ func TestGrid(t *testing.T) {
 	}
 	vk.CountConstructed(evals, nontriv, "grid-firstdiff")
 	vk.MarkExhaustive("all 1-byte strings x widths x indexes; all pairs of 1-byte strings x widths x all windows from in [0,words+1], end in [-1,words+1]")
+
+	// the window-placing helper against the oracle (it never judges the library, but it decides where windows go)
+	for i := uint64(0); i < 3000; i++ {
+		h := vk.Mix(i)
+		a := fill(int(h%9), h, 1)
+		b := fill(int(h>>8%9), h>>4|1, 1)
+		if h>>20&1 == 0 {
+			copy(b, a)
+		}
+		n := widths[h>>24&3]
+		if g, w := diffWord(a, b, n), wantFirstDiff(string(a), string(b), n, 0, -1); g != w {
+			vk.Infra(fmt.Sprintf("c08: diffWord(%x,%x,%d) = %d, oracle %d", a, b, n, g, w))
+			t.Fatalf("harness self-check failed")
+		}
+	}
+
+	sweepSizedGrid(t)
+}
+
+// sweepSizedGrid: no size between the exhaustive region and the largest inputs is left out. For every octave the
+// sizes 2^k-1, 2^k, 2^k+1 and two more, with content that matters at that size (random bytes, or ones up to a
+// last byte that differs; the FirstDiff difference in the last word / the last bit).
+func sweepSizedGrid(t *testing.T) {
+	topW := vk.Pick(16, 21) // FromStr / ToStr: up to 2^17-1 words (thorough 2^22-1)
+	topD := vk.Pick(15, 19) // FirstDiff: difference at word up to 2^16-1 (thorough 2^20-1)
+	topK := vk.Pick(13, 16) // lists: up to 2^14-1 elements (thorough 2^17-1)
+	styleOf := func(i int) int { return []int{0, 0, 3, 0, 6, 1, 0, 4}[i%8] }
+	for wi, n := range widths {
+		per := 8 / n
+		for i, w := range sweepSizes(3, topW, uint64(n)) {
+			seed := vk.U64(vk.Mix(uint64(w)<<8 + uint64(n)))
+			checker.Run(t, Case{Op: "str", N: n, Gen: &Spec{Len: (w + per - 1) / per, Seed: seed, Style: styleOf(i + wi)}, Class: "sweep"})
+			checker.Run(t, Case{Op: "tostr", N: n, Gen: &Spec{Len: w, Seed: seed, Style: styleOf(i + wi + 1)}, Class: "sweep"})
+		}
+		for i, w := range sweepSizes(3, topD, uint64(n)+100) {
+			// the words 0..w-2 are common, word w-1 differs (in its first or its last bit); a and b are longer than that by 0..2 / 0..6 bytes
+			seed := vk.U64(vk.Mix(uint64(w)<<8 + uint64(n) + 77))
+			base := (w + per - 1) / per
+			pos := (w-1)*n + (i%2)*(n-1)
+			g := Spec{Len: base + i%3, LenB: base + []int{0, 1, 6, 0, 2}[i%5], Seed: seed, Style: styleOf(i), Rel: 1, Pos: pos}
+			for _, win := range [][2]int{{0, -1}, {w - 2, w + 1}, {w - 1, w}, {w, -1}, {0, w - 1}, {w - 1, math.MaxInt}} {
+				gg := g
+				checker.Run(t, Case{Op: "firstdiff", N: n, Gen: &gg, From: max(win[0], 0), End: win[1], Class: "sweep"})
+			}
+		}
+	}
+	// lists: the sizes below 2^11 and three sizes of each octave up to 2^13 under every GOMAXPROCS setting (in the
+	// process that varies it; once otherwise), the others under the setting that is current
+	for i, k := range sweepSizes(3, topK, 5) {
+		n := widths[i%4]
+		seed := vk.U64(vk.Mix(uint64(k)<<8 + 5))
+		g := Spec{Len: k, Seed: seed, Style: styleOf(i), ELen: 2 + i%3, Mix: []int{0, 3, 4, 0, 2, 5}[i%6], Long: 13 + int(vk.Mix(uint64(k))%200)}
+		if g.Mix == 2 || g.Mix == 3 {
+			g.Long = max(min(g.Long, (1<<15)/k), 13)
+		}
+		run := func() {
+			g1, g2 := g, g
+			checker.Run(t, Case{Op: "plural", N: n, Gen: &g1, Class: "sweep"})
+			if k < 600 || i%5 == 2 {
+				checker.Run(t, Case{Op: "tostrs", N: widths[(i+1)%4], Gen: &g2, Class: "sweep"})
+			}
+		}
+		if k < 1<<11 || (k < 1<<13 && i%5 >= 2) || vk.Thorough() {
+			vk.ProcsSweep(run)
+		} else {
+			run()
+		}
+	}
+	// a few sizes of the other operations under every setting, too
+	for i, w := range []int{127, 128, 129, 1023, 1025, 4095, 4097, 8191, 8193} {
+		n := widths[i%4]
+		per := 8 / n
+		seed := vk.U64(vk.Mix(uint64(w)<<8 + 9))
+		vk.ProcsSweep(func() {
+			checker.Run(t, Case{Op: "str", N: n, Gen: &Spec{Len: (w + per - 1) / per, Seed: seed}, Class: "sweep-procs"})
+			checker.Run(t, Case{Op: "tostr", N: n, Gen: &Spec{Len: w, Seed: seed}, Class: "sweep-procs"})
+			la := (w + per - 1) / per
+			checker.Run(t, Case{Op: "firstdiff", N: n, Gen: &Spec{Len: la, LenB: la + 1, Seed: seed, Rel: 1, Pos: (w-1)*n + n - 1}, From: 0, End: -1, Class: "sweep-procs"})
+		})
+	}
 }
 
 // TestLast runs at the very end of the process: huge inputs (the maximum bitmap / string) and the regression cases of that size come last, so that
@@ -506,6 +1140,14 @@ func TestLast(t *testing.T) {
 		for _, back := range []int{0, 1, 9, 100} {
 			for _, cut := range []int{0, 1, 8} {
 				checker.Run(t, Case{Op: "maxstr", N: n, From: back, End: cut, Class: "grid-maximum-string"})
+			}
+		}
+	}
+	// ... against a twin with one inverted bit: the last bit, the first bit of the last byte, a bit in a byte that is zero
+	for _, n := range widths {
+		for _, flip := range []int64{1, 8, 3, 8*7 - 3, 8*200 + 5} {
+			for _, back := range []int{0, 1, 9, 1000} {
+				checker.Run(t, Case{Op: "maxtwin", N: n, From: back, Flip: flip, Class: "grid-maximum-string"})
 			}
 		}
 	}
